@@ -457,18 +457,22 @@ let apply_precheck r fn op a b =
     | Some fa, Some fb, Some fr ->
       (match Hashtbl.find_opt fors fa, Hashtbl.find_opt fors fb with
        | Some fa, Some fb ->
-         if fa.fdom <> fr.fdom || fb.fdom <> fr.fdom then Some "DOMAIN_MISMATCH"
-         else
-           let shape_ok = match op with
-             | "cross" -> (not fa.rel) && (not fb.rel) && fr.rel
-             | "post" | "pre" | "vm" | "reach_fs" | "reach_nofs" | "reach_sat"
-             | "rreach_fs" | "rreach_nofs" | "rreach_sat" -> (not fa.rel) && fb.rel && (not fr.rel)
-             | "mv" -> fa.rel && (not fb.rel) && (not fr.rel)
-             | _ -> fa.rel = fr.rel && fb.rel = fr.rel in
-           if not shape_ok then Some "TYPE_MISMATCH"
-           (* the forests must be in the same variable order (checked at every call) *)
-           else if fa.order <> fr.order || fb.order <> fr.order then Some "INVALID_OPERATION"
-           else None
+         (* the decision table of Model/Precheck.v (PrecheckP: accepted iff one domain,
+            fitting shapes, same variable order; first violated precondition decides) *)
+         let desc f = { fd_dom = nat_of_int (match Hashtbl.find_opt dom_ids f.fdom with
+                                             | Some i -> i
+                                             | None -> 1000 + (Hashtbl.hash f.fdom land 0xFFF));
+                        fd_rel = f.rel;
+                        fd_order = List.map nat_of_int (Array.to_list f.order) } in
+         let sh = match op with
+           | "cross" -> ShCross
+           | "post" | "pre" | "vm" | "reach_fs" | "reach_nofs" | "reach_sat"
+           | "rreach_fs" | "rreach_nofs" | "rreach_sat" -> ShImage
+           | "mv" -> ShMatVec
+           | _ -> ShSame in
+         (match precheck sh (desc fa) (desc fb) (desc fr) with
+          | Some c -> Some (ocaml_string c)
+          | None -> None)
        | _ -> None)
     | _ -> None
 
